@@ -47,6 +47,7 @@ func (db *Database) SearchWithOptions(query string, options SearchOptions) []Sea
 	if options.Limit <= 0 {
 		options.Limit = constants.DefaultSearchLimit
 	}
+	options.Limit = clampLimit(options.Limit, len(db.Commands))
 
 	queryWords := strings.Fields(strings.ToLower(query))
 	results := make([]SearchResult, 0, utils.Min(len(db.Commands), options.Limit*constants.ResultsBufferMultiplier))
@@ -715,6 +716,10 @@ func (db *Database) SearchWithNLP(query string, options SearchOptions) []SearchR
 		// Fall back to regular search if NLP is disabled
 		return db.SearchWithFuzzy(query, options)
 	}
+	if options.Limit <= 0 {
+		options.Limit = constants.DefaultSearchLimit
+	}
+	options.Limit = clampLimit(options.Limit, len(db.Commands))
 
 	// Use shared TF-IDF searcher if available
 	if db.tfidf != nil && db.cmdIndex != nil {
